@@ -79,6 +79,9 @@ def check_C08(run):
     ]
     from lexfam import stage_mc_lexer
     stage_mc_lexer(run, 3, SUB_SYMS, 4)
+    # whole words that mean something to SQL or to Go's number parsing, alone and next to every symbol
+    res, tot = stage_quote_enum(run, 0, VALUE_SYMS, name="quote_words", words=True)
+    stage_judge_quote(run, res, name="judge_quote_words")
     if run.tier == "quick":
         res, tot = stage_quote_enum(run, 2, VALUE_SYMS)
         stage_judge_quote(run, res)
